@@ -14,6 +14,7 @@ import itertools
 import json
 import os
 import random
+import subprocess
 import concurrent.futures as cf
 
 import vlib
@@ -41,6 +42,37 @@ def big_input(rnd, tier):
     n = base + rnd.choice([-1, 0, 1, 13, 17])
     fam = rnd.choice(["periodic", "zeros", "random", "mixed"] + (["text"] if n <= 300000 else []))
     return {"family": fam, "len": n, "seed": rnd.randrange(1 << 30), "p1": rnd.choice([1, 2, 3, 7, 255, 4096, 65535, 65536, 65537])}
+
+
+def worst_case_size(n):
+    """BoundLemma!WorstCaseSize: the literal-only block of n bytes"""
+    return n + 1 + ((n - 15) // 255 + 1 if n >= 15 else 0)
+
+
+def bound_lemma(ctx, b):
+    """BoundLemma (TLC up to MaxN, Apalache for every n), then the code's CompressBlockBound on a grid of lengths: where it
+    is below WorstCaseSize the generator adds an executed case (the verdict comes from that call, not from the comparison)."""
+    ctx.mc("BoundLemma", timeout=600, workers=4)
+    done = 0
+    for inv in ("Sufficient", "Slack"):
+        ok, text = vlib.run_apalache("BoundLemma", "IndInit", inv, 0, cinit="CInit")
+        if ok is None:
+            ctx.notes.append("apalache could not be run: BoundLemma for every n skipped (TLC covers n <= 300000)")
+            break
+        if not ok:
+            raise vlib.MachineryFault("Apalache refutes BoundLemma!%s (model-level finding):\n%s" % (inv, text))
+        done += 1
+    grid = sorted(set([0, 1, 14, 15, 16, 254, 255, 256, 269, 270, 271] + [x + dlt for e in range(9, 31) for x in (1 << e, 3 << (e - 1))
+                                                                         for dlt in (-1, 0, 1, 14, 15, 16) if x + dlt < (1 << 30) + 1]
+                      + [255 * k + 15 + dlt for k in (1, 2, 257, 4096, 65536, 1 << 20) for dlt in (-1, 0, 1)]))
+    p = subprocess.run([b, "bound-grid"] + [str(n) for n in grid], stdout=subprocess.PIPE, text=True, timeout=120)
+    if p.returncode != 0:
+        raise vlib.MachineryFault("bound-grid failed")
+    real = json.loads(p.stdout)
+    short = [n for n in grid if real[str(n)] < worst_case_size(n)]
+    ctx.extra["bound_grid"] = {"lengths": len(grid), "max": max(grid), "code_bound_below_worst_case": len(short), "apalache": done}
+    ctx.extra["bound_grid_short"] = [n for n in short if n <= (64 << 20)]
+    ctx.evaluations += len(grid)
 
 
 def depth_of(cls, kind, rnd):
@@ -120,6 +152,12 @@ def build_cases(ctx, histories, grid, d):
                 inp = {"family": "plant", "len": dist + m + 200 + 37 * bg, "seed": 3 * rnd.randrange(1 << 20) + bg, "p1": dist, "p2": m}
                 add([{"obj": [kind, rnd.choice(["w1", "pool"])], "input": inp, "depth": depth_of(rnd.choice([0, 1, 2]), kind, rnd),
                       "dstLen": -1, "spare": 0} for kind in ("fast", "hc")])
+    # (4b) incompressible sources beyond 1 MiB with a destination of exactly the code's CompressBlockBound, and every
+    # length where the code's bound is below BoundLemma!WorstCaseSize (found on a grid up to 2^30; executed up to 64 MiB)
+    for n in ([1 << 20, (3 << 20) + 5] if q else [1 << 20, (3 << 20) + 5, 8 << 20, (16 << 20) + 1, 48 << 20]) + ctx.extra.get("bound_grid_short", [])[:3]:
+        inp = {"family": "random", "len": n, "seed": rnd.randrange(1 << 30)}
+        add([{"obj": [kind, rnd.choice(["i1", "pool"])], "input": inp, "depth": 0 if kind == "fast" else 1, "dstLen": -1, "spare": 64}
+             for kind in ("fast", "hc")])
     # (5) pooled compressors used from four goroutines, keys repeated (C14)
     for _ in range(12 if q else 200):
         ins = [small_input(rnd) for _ in range(3)] + [small_input(rnd, rnd.randrange(100, 161))]
@@ -166,7 +204,7 @@ def why(prop, r):
         return "%s:%s:%s:write-beyond-len(dst)" % (prop, kind, big)
     if r["n"] > r["dstLen"]:
         return "%s:%s:%s:n>len(dst)" % (prop, kind, big)
-    if r["dstLen"] >= r["bound"] and (r["n"] <= 0 or r["err"]):
+    if (r["dstLen"] >= r["bound"] or r["dstLen"] >= r.get("realBound", r["bound"])) and (r["n"] <= 0 or r["err"]):
         return "%s:%s:%s:fails-with-bound-sized-dst" % (prop, kind, big)
     if r["n"] == 0 and r["dstLen"] >= r["bound"]:
         return "%s:%s:%s:zero-count-with-bound-sized-dst" % (prop, kind, big)
@@ -208,6 +246,8 @@ def run(ctx, prop):
                 raise vlib.MachineryFault("Apalache refutes FastTableInd!%s (model-level finding):\n%s" % (inv, text))
             done += 1
         ctx.extra["apalache_fast_table_lemmas"] = {"discharged": done, "of": 4, "what": "W = 65536, positions up to 4 MiB"}
+    if prop == "C01":
+        bound_lemma(ctx, b)
     g = ctx.mc("Gen_BlockGrid", cfg="Gen_BlockGrid_quick" if q else "Gen_BlockGrid", want_cases=True, timeout=1800, heap="8g")
     cases = build_cases(ctx, histories, sorted(g.cases, key=lambda h: json.dumps(h, sort_keys=True)), d)
     by_case = execute(b, cases, d, "run")
@@ -248,7 +288,7 @@ def run(ctx, prop):
             for ln in by_case[cid]:
                 r_ = json.loads(ln)
                 k = (r_["srcid"], r_["kind"], r_["depth"], r_["dstLen"])
-                slim = {x: r_[x] for x in ("ev", "case", "idx", "kind", "obj", "depth", "srcLen", "dstLen", "bound", "n", "err",
+                slim = {x: r_[x] for x in ("ev", "case", "idx", "kind", "obj", "depth", "srcLen", "dstLen", "bound", "realBound", "n", "err",
                                            "panicked", "canary", "srcok", "srcid", "outid")}
                 slim["big"] = True
                 groups.setdefault(k, []).append(slim)
